@@ -1,14 +1,15 @@
-(** C15 - property theorems *)
+(** C15 - property theorems (statements only; proofs live in the library files) *)
 From Coq Require Import ZArith NArith PArith List Bool.
-From Cohdl Require Import Vhdl.Value Vhdl.Syntax Vhdl.Sem Equiv.Explore Equiv.VhdlTS Equiv.RefTS Equiv.Monitor Models.StdSpecs.
+From Cohdl Require Import Vhdl.Value Vhdl.Syntax Vhdl.Sem Vhdl.DefAssign Vhdl.DeadVars Equiv.Explore Equiv.VhdlTS Equiv.RefTS Equiv.Monitor Equiv.StoreTS Models.StdSpecs.
 Import ListNotations.
 
 (** per-configuration obligation: OK from the checker means the hand-over monitor answers ok at
     every clock of every input sequence (all timings of producer and consumer, all payloads) *)
 Theorem C15_case_sound :
   forall d mid mon alphabet fuel m0,
-    is_ok (mcheck d mid mon alphabet fuel m0) = true ->
+    conc_all_ok (auto_Ts d) d = true ->
+    is_ok (mcheck_s d mid mon alphabet fuel m0) = true ->
     forall ins, Forall (fun i => In i alphabet) ins ->
-      Forall (fun o => o = okout) (traceA (mstep d mid mon) (power_up d, m0) ins).
-Proof. exact mcheck_sound. Qed.
+      Forall (fun o => o = okout) (traceA (mstep_s d mid mon) (power_up_s d, m0) ins).
+Proof. exact mcheck_s_sound. Qed.
 Print Assumptions C15_case_sound.
